@@ -78,7 +78,9 @@ def dict_view(st: Dict[str, Any]) -> Dict[str, Any]:
         "mac": st["mac"], "config_version": st["config_version"], "accessories_hash": st["accessories_hash"],
         "private_key": st["private_key"], "public_key": st["public_key"],
         "paired_clients": dict(map(tuple, st["paired"])), "client_properties": {u: json.dumps(p) for u, p in st["props"]},
-        "uuid_to_bytes": dict(map(tuple, st["u2b"])),
+        # identifier bytes of PAIRED controllers (the property speaks of pairings; recorded bytes of controllers
+        # that are no longer paired are compared by the correspondence only)
+        "uuid_to_bytes": {u: b for u, b in st["u2b"] if u in {x for x, _ in st["paired"]}},
     }
 
 
@@ -204,9 +206,36 @@ def run_doc_case(docp: Dict[str, Any], kind: str = "damaged"):
                 fail = ("C14:legacy-not-admin", f"a state file without client_properties loaded with {len(bad)} of {len(admins)} controllers not admin")
             if "client_properties" not in docp and any(p != 1 for _, p in loaded["props"]):
                 fail = ("C14:legacy-not-admin", "a state file without client_properties loaded with a permission entry other than 1")
+            if fail is None and kind in ("legacy", "current"):
+                exp, got = expected_from_doc(docp), dict_view(loaded)
+                diff = [f for f in exp if exp[f] != got[f]]
+                if diff:
+                    absent = [m for m in ("client_properties", "client_uuid_to_bytes", "accessories_hash") if m not in docp]
+                    fail = (("C14:legacy-field-differs:" if kind == "legacy" else "C14:document-field-differs:") + diff[0],
+                            f"a well-formed state file without {absent or 'no member'} ({len(docp['paired_clients'])} controllers) loaded with "
+                            f"{diff} different from what the file says (stored permissions / keys / identity must be kept)")
         return {"layer": "encoder", "op": "load", "doc": docp}, impl, fail
     finally:
         holder.close()
+
+
+def expected_from_doc(d: Dict[str, Any]) -> Dict[str, Any]:
+    """What a well-formed document must load to, read off the document with uuid.UUID / bytes.fromhex
+    only (no pyhap encoder, no model): identity members as written; every paired_clients entry with its
+    key; stored permissions if the member exists, else permission 1 for every paired controller; stored
+    identifier bytes if the member exists, else none. In the dict_view shape."""
+    paired: Dict[str, str] = {}
+    for k, v in d["paired_clients"]:
+        paired[str(uuidlib.UUID(k).int)] = bytes.fromhex(v).hex()
+    if d.get("client_properties") is not None:
+        props = {str(uuidlib.UUID(k).int): json.dumps(v["permissions"]) for k, v in d["client_properties"]}
+    else:
+        props = {u: json.dumps(1) for u in paired}
+    u2b = {str(uuidlib.UUID(k).int): bytes.fromhex(v).hex() for k, v in (d.get("client_uuid_to_bytes") or [])}
+    u2b = {u: b for u, b in u2b.items() if u in paired}
+    return {"mac": d["mac"], "config_version": d["config_version"], "accessories_hash": d.get("accessories_hash"),
+            "private_key": d["private_key"].lower(), "public_key": d["public_key"].lower(),
+            "paired_clients": paired, "client_properties": props, "uuid_to_bytes": u2b}
 
 
 def doc_to_json(docp: Dict[str, Any]) -> Dict[str, Any]:
@@ -322,10 +351,49 @@ def derive_doc(rng, doc):
     return d, kind
 
 
+OPTIONAL_MEMBERS = ("client_properties", "client_uuid_to_bytes", "accessories_hash")
+
+
+def generation_docs(ctx: Ctx):
+    """Every combination of members that older releases did not write yet, for 0 / 1 / 2 / 6 controllers
+    with mixed permissions; plus identifier bytes recorded for only some controllers (partial back-fill)
+    and permissions stored for only some (hand-edited: nothing is demanded, correspondence only)."""
+    rng = ctx.rng
+    docs = []
+    for n in (0, 1, 2, 6):
+        real = c06.Real()
+        try:
+            for i in range(n):
+                real.driver.pair(c06.spell(rng, rng.getrandbits(128)), c06.key_of(rng), bytes([[1, 0, 3, 128, 0, 255][i % 6]]))
+            real.state.config_version = rng.choice([1, 2, 65535, rng.randrange(1, MAXCV + 1)])
+            real.state.accessories_hash = rng.choice([None, "ab" * 32])
+            real.driver.persist()
+            doc = real.file_doc()
+        finally:
+            real.close()
+        for mask in range(8):
+            d = {k: v for k, v in doc.items() if not (k in OPTIONAL_MEMBERS and mask >> OPTIONAL_MEMBERS.index(k) & 1)}
+            docs.append((d, "legacy" if "client_properties" not in d else "current"))
+        if n >= 2:
+            for drop_props in (False, True):  # identifier bytes for the first controller only
+                d = dict(doc)
+                d["client_uuid_to_bytes"] = doc["client_uuid_to_bytes"][:1]
+                if drop_props:
+                    d.pop("client_properties")
+                docs.append((d, "legacy" if drop_props else "current"))
+                d2 = dict(d)
+                d2["client_uuid_to_bytes"] = doc["client_uuid_to_bytes"][1:]
+                docs.append((d2, "legacy" if drop_props else "current"))
+            d = dict(doc)
+            d["client_properties"] = doc["client_properties"][1:]
+            docs.append((d, "hand-edited"))
+    return docs
+
+
 def gen_docs(ctx: Ctx) -> List[Dict[str, Any]]:
     """Legacy and odd documents derived from really persisted ones."""
     rng = ctx.rng
-    docs = []
+    docs = generation_docs(ctx)
     for i in range(ctx.n(240, 2500)):
         ops = c06.random_script(ctx) if i % 3 else [c06.setup(c06.spell(rng, rng.getrandbits(128), 1), c06.key_of(rng))] + [
             c06.req(None, "", False)]
@@ -394,7 +462,10 @@ def run_history(ops: List[Dict[str, Any]], collect: bool = True):
             elif k == "unpair":
                 u = c06.parse_id(bytes.fromhex(op["id"]))
                 if u is not None and uuidlib.UUID(int=u) in st.paired_clients:
-                    real.driver.unpair(uuidlib.UUID(int=u))
+                    try:
+                        real.driver.unpair(uuidlib.UUID(int=u))
+                    except Exception:  # noqa: BLE001  (the real code raised; whatever it saved is judged below)
+                        pass
             elif k == "verify":
                 post, _h = real.connection()
                 idn = real.ident()
@@ -412,7 +483,14 @@ def run_history(ops: List[Dict[str, Any]], collect: bool = True):
                 real.driver.persist()
                 saved = True
             elif k in ("restart", "strip"):
+                expect = dict_view(full_state(real))
                 if k == "strip":  # turn the file into one written by an older version
+                    if "client_properties" in op["members"]:
+                        expect["client_properties"] = {u: json.dumps(1) for u in expect["paired_clients"]}
+                    if "client_uuid_to_bytes" in op["members"]:
+                        expect["uuid_to_bytes"] = {}
+                    if "accessories_hash" in op["members"]:
+                        expect["accessories_hash"] = None
                     with open(real.path, "r", encoding="utf8") as fh:
                         tree = json.load(fh)
                     for m in op["members"]:
@@ -426,6 +504,17 @@ def run_history(ops: List[Dict[str, Any]], collect: bool = True):
                     break
                 real.close()
                 real = nxt
+                got = dict_view(full_state(real))
+                diff = [f for f in expect if expect[f] != got[f]]
+                if diff and fail is None:
+                    stripped = op.get("members", [])
+                    if "client_properties" in stripped and "client_properties" in diff:
+                        fail = ("C14:legacy-not-admin", f"restart at step {i} from a file without {stripped}: not every paired controller "
+                                f"({len(got['paired_clients'])}) came back with permission 1 / as admin", i)
+                    else:
+                        fail = ("C14:restart-state-differs:" + diff[0], f"restart at step {i}" + (f" from a file without {stripped}" if stripped else "")
+                                + f": the reloaded {diff} differ from the state before the restart", i)
+                    break
             saved = saved or real.persist_calls > calls0
             trace.append([k, saved, len(real.state.paired_clients), len(real.state.uuid_to_bytes)])
             if not saved:
@@ -484,8 +573,8 @@ def gen_history(ctx: Ctx) -> List[Dict[str, Any]]:
         elif r < 0.90:
             ops.append({"k": "restart"})
         else:
-            ops.append({"k": "strip", "members": rng.choice([["client_uuid_to_bytes"], ["client_properties"], ["client_properties", "client_uuid_to_bytes"],
-                                                             ["client_uuid_to_bytes", "accessories_hash"]])})
+            mk = rng.randrange(1, 8)  # any non-empty set of members older releases did not write
+            ops.append({"k": "strip", "members": [m for j, m in enumerate(OPTIONAL_MEMBERS) if mk >> j & 1]})
             ops.append({"k": "verify", "id": hx(c["id"]), "seed": hx(c["seed"])})
     return ops
 
@@ -500,7 +589,7 @@ def boundary_histories(ctx: Ctx) -> List[List[Dict[str, Any]]]:
         # only a permission byte changes between two saves (same id bytes, same key); then once more after a restart
         out.append([h_pair(A, 1), h_add(B, p0), h_add(B, p1), {"k": "restart"}, h_add(B, p0), h_add(B, p1)])
         out.append([h_pair(A, 1), h_pair(B, p0), h_pair(B, p1), {"k": "config"}, h_pair(B, p0)])
-    for members in (["client_uuid_to_bytes"], ["client_properties", "client_uuid_to_bytes"], ["client_properties"]):
+    for members in ([m for j, m in enumerate(OPTIONAL_MEMBERS) if mk >> j & 1] for mk in range(1, 8)):
         # legacy start: pair-verify back-fills the identifier bytes and saves
         out.append([h_pair(A, 1), h_add(B, 0), {"k": "strip", "members": members}, vB, vA, {"k": "restart"}, h_add(B, 1), vB])
         out.append([h_pair(A, 1), {"k": "strip", "members": members}, vA, h_add(B, 0), {"k": "strip", "members": members}, vB, vB])
@@ -611,7 +700,12 @@ def run(ctx: Ctx):
             ctx.fail(fail[0], fail[1], {"kind": "doc", "doc": d, "doc_kind": kind})
             st.hit("outcome", "oracle:" + fail[0])
         legacy = "client_properties" not in d
-        st.case(["d", sorted(d), len(d.get("paired_clients") or []), "err" in impl], legacy or "err" in impl or len(d.get("paired_clients") or []) > 0)
+        ucount = len(d.get("client_uuid_to_bytes") or [])
+        st.case(["d", sorted(d), len(d.get("paired_clients") or []), "err" in impl, ucount, len(d.get("client_properties") or [])],
+                legacy or "err" in impl or len(d.get("paired_clients") or []) > 0)
+        if kind in ("legacy", "current"):
+            absent = "+".join(m for m in OPTIONAL_MEMBERS if m not in d) or "nothing"
+            st.hit("outcome", f"doc-generation/absent:{absent}")
         st.hit("op", "load-document")
         st.hit("outcome", f"doc/{kind}/" + ("load-error" if "err" in impl else "loaded"))
 
